@@ -495,3 +495,12 @@ PROPS['C07']['traces'].append(gen_family('genmergecrash', GEN_MERGEC))
 PROPS['C06']['traces'].append(gen_family('genmerge', GEN_MERGE))
 PROPS['C01']['traces'].append(gen_family('genmap', GEN_MAP))
 PROPS['C13']['traces'].append(gen_family('gensync', GEN_SYNC, enforce=['c13always', 'c13batch', 'c13sync', 'c13rot', 'view']))
+def syncrace_sig(e):
+    if e.get('ev') == 'ret':
+        return ('ret', e.get('c'), e.get('op'), e.get('err'))
+    if e.get('ev') == 'io':
+        return ('io', e.get('c'), e.get('kind'))
+    return None
+# two clients, one parked at the entry of its fsync while the other writes (as far as the locks allow)
+PROPS['C13']['traces'].append(dict(profile='syncrace', spec='SyncConcTrace', enforce=['c13always', 'c13threshold', 'outcome'], sig=syncrace_sig,
+                                   deterministic=False, quick_seeds=1, thorough_seeds=2))
